@@ -466,6 +466,22 @@ Section Facts.
     - exact IH.
   Qed.
 
+  Lemma sorted_app : forall a b, sorted a -> sorted b ->
+    (forall x y, In x a -> In y b -> ltb (fst x) (fst y) = true) -> sorted (a ++ b).
+  Proof.
+    induction a as [|[k v] a IH]; intros b Sa Sb H; [exact Sb|]. destruct Sa as [La Sa]. cbn [app]. split.
+    - unfold SortedMap.lt_all in *. apply Forall_app. split; [exact La|].
+      apply Forall_forall. intros y Hy. exact (H (k, v) y (or_introl eq_refl) Hy).
+    - apply IH; [exact Sa|exact Sb|]. intros x y Hx Hy. apply H; [right; exact Hx|exact Hy].
+  Qed.
+  Lemma In_keys_lookup : forall k m, sorted m -> (In k (keys m) <-> lookup k m <> None).
+  Proof.
+    intros k m S. unfold keys. rewrite in_map_iff. split.
+    - intros [[k' v] [E H]]. cbn in E. subst k'. apply (lookup_In k v m S) in H. congruence.
+    - intro H. destruct (lookup k m) as [v|] eqn:E; [|contradiction]. exists (k, v). split; [reflexivity|].
+      apply lookup_Some_In. exact E.
+  Qed.
+
   (* ---- filter on keys, map on values ---- *)
   Lemma lt_all_filter : forall a f (m : list (K * V)), lt_all a m -> lt_all a (filter f m).
   Proof.
